@@ -76,10 +76,10 @@ Definition find_between (last : bool) (value sub start finish : value) : outcome
            let '(_, fnum, _) := rf in
            if negb fnum then Err EInvalidType else
            match to_decimal start with None => Err EInvalidType | Some _ => Err EIntegerConversion end);
+  do j <- int_arg finish;
   match start_offset s i with
   | None => Ok VNull
   | Some i =>
-    do j <- int_arg finish;
     if j <? 0 then Ok VNull else
     let j := if j >? blen s then blen s else rune_offset_clamp (Z.to_nat j) s 0 in
     if i >? j then Ok VNull else
